@@ -66,7 +66,7 @@ func producerAlive() bool {
 
 func runAttemptExec(execID int, sci any, e *Env) []rec.Ev {
 	sc := sci.(*AScenario)
-	ctx, cancel := context.WithCancel(context.Background())
+	ctx, cancel := withCancelCause(context.Background())
 	if sc.Pre {
 		cancel()
 	}
